@@ -92,6 +92,9 @@ def gen_series(rng, n, kind, missing_ok):
 
 def gen_data(rng, fn, n=None):
     module, args, _, missing_ok = FUNCS[fn]
+    if n is None and rng.chance(0.012):
+        # lengths around powers of two, where chunked / blocked implementations change behaviour
+        n = rng.pick((63, 64, 65, 255, 256, 257, 1023, 1024, 1025, 4095, 4096, 4097))
     n = wl.gen_n(rng, 24) if n is None else n
     data = {a: gen_series(rng, n, a, missing_ok) for a in args}
     if "lat" in data and "lon" in data and n >= 2 and rng.chance(0.3):
